@@ -1028,6 +1028,11 @@ func (ctx Ctx) sliceExpr(e *ast.SliceExpr) coq.Expr {
 		ctx.unsupported(e, "setting the max capacity in a slice expression is not supported")
 		return nil
 	}
+	if _, ok := ctx.typeOf(e.X).Underlying().(*types.Slice); !ok {
+		// strings and arrays (and pointers to arrays) are not slice values
+		ctx.unsupported(e, "slice expression on %v (only slices are supported)", ctx.typeOf(e.X))
+		return nil
+	}
 	x := ctx.expr(e.X)
 	if e.Low != nil && e.High == nil {
 		return coq.NewCallExpr(coq.GallinaIdent("SliceSkip"),
